@@ -279,3 +279,37 @@ Proof.
   intros Hc Hs Hst. rewrite cache_get_mark_router, Hc. destruct k as [[[[kl kr] kp] klp] krp].
   destruct (kr =? remote); eexists; split; try reflexivity; assumption.
 Qed.
+
+
+(* ---------- the passage of time (HAge) never re-opens a connection ---------- *)
+Lemma ckey_eqb_true a b : ckey_eqb a b = true -> a = b.
+Proof.
+  destruct a as [[[[a1 a2] a3] a4] a5], b as [[[[b1 b2] b3] b4] b5]. unfold ckey_eqb.
+  rewrite !andb_true_iff, !N.eqb_eq. intros [[[[-> ->] ->] ->] ->]. reflexivity.
+Qed.
+
+Lemma cache_get_age k ch long :
+  cache_get k (age_cache ch long) = if long then None else if short_lived k then None else cache_get k ch.
+Proof.
+  unfold age_cache. destruct long; [reflexivity|].
+  induction ch as [|[k' v] t IH]; cbn [filter cache_get fst]; [destruct (short_lived k); reflexivity|].
+  destruct (short_lived k') eqn:Sk'; cbn [negb].
+  - destruct (ckey_eqb k k') eqn:E; [apply ckey_eqb_true in E; subst; rewrite Sk' in *; exact IH|exact IH].
+  - cbn [cache_get]. destruct (ckey_eqb k k') eqn:E; [apply ckey_eqb_true in E; subst; rewrite Sk'; reflexivity|exact IH].
+Qed.
+
+(* After any pause, an inbound packet is handed to the local interface only if it would have been
+   before the pause, or the inbound policy itself admits it: time never turns "denied" into
+   "allowed". *)
+Theorem age_never_opens c pol ch long handle unsealed fsrc fdst k :
+  fst (inbound c pol (age_cache ch long) handle unsealed fsrc fdst k) = Deliver ->
+  fst (inbound c pol ch handle unsealed fsrc fdst k) = Deliver \/
+  check_in pol (p_proto k) (dport_of k) (p_src k) = true.
+Proof.
+  unfold inbound.
+  repeat match goal with |- context [if ?b then (Drop, _) else _] => destruct b; [cbn; discriminate|] end.
+  unfold check_policy. rewrite cache_get_age.
+  destruct (check_in pol (p_proto k) (dport_of k) (p_src k)) eqn:Ck; [intros _; right; reflexivity|].
+  destruct long; [cbn; discriminate|]. destruct (short_lived _); [cbn; discriminate|].
+  destruct (cache_get _ ch) as [[inb st]|]; cbn [fst]; intros H; left; exact H.
+Qed.
